@@ -407,7 +407,98 @@ def rule_R6(ck):
         ck.violation("compiler::Compiler.compile_and_link_files", "linked files are not compiled at the running address with the shared link base", construct="link continuation")
 
 
+def rule_R7(ck):
+    """compile_and_link_files: file k starts at base + total length of files before it; result is their concatenation;
+    every symbol value (whatever its kind) is waited before returning"""
+    repo = ck.repo
+    where = "compiler::Compiler.compile_and_link_files"
+    for deferred in (False, True):
+        I = eager_interp(repo)
+        I.summaries = {"reports::emit_report": I.summaries["reports::emit_report"]}
+        calls = []
+        L = [sym.var(f"len{i}", "int") for i in range(3)]
+
+        def compile_file(I_, fn, a, k):
+            i = len(calls)
+            calls.append(a)
+            if deferred:
+                SD = I_.module_get("deferred", "SizedDeferred")
+                r = I_.instantiate(SD, [I_.builtin_types["bytes"], L[i], PyFn(lambda I2, aa, kk: sym.var(f"chunk{i}", "bytes"))], {})
+                return r
+            return sym.var(f"chunk{i}", "bytes")
+        I.summaries["compiler::Compiler.compile_file"] = compile_file
+
+        def thunk():
+            del calls[:]
+            comp = I.instantiate(I.module_get("compiler", "Compiler"), [], {})
+            files = [sym.var(f"file{i}", "obj") for i in range(3)]
+            base, code = I.call_method(comp, "compile_and_link_files", [files])
+            wait = I.module_get("deferred", "wait")
+            starts = [I.call(wait, [c[2]], {}) for c in calls]
+            return base, code, starts, [c[1] for c in calls], [c[3] for c in calls]
+        ps = I.explore(thunk)
+        gen = [p for p in ps if all(v for k, v in p.decisions)] or ps
+        p = gen[0]
+        ck.instance(("link-chain", deferred), {"deferred chunks": deferred, "file start addresses": [repr(x) for x in p.value[2]] if p.kind == "return" else repr(p.value)}, fn=where)
+        if p.kind != "return":
+            ck.violation(where, f"linking three files does not complete: {p.value!r}", construct="link chain")
+            continue
+        base, code, starts, files, lbs = p.value
+        acc = 0o1000
+        for i, st in enumerate(starts):
+            if st != acc:
+                ck.violation(where, f"linked file {i + 1} is compiled at {st!r}; its bytes land at {acc!r} (base + lengths of the files before it)", construct="linked file start address", expected=repr(acc), found=repr(st))
+                break
+            acc = sym.add(acc, L[i] if deferred else sym.op("len", sym.var(f"chunk{i}", "bytes")))
+        want = sym.cat(sym.cat(sym.var("chunk0", "bytes"), sym.var("chunk1", "bytes")), sym.var("chunk2", "bytes"))
+        if code != want or base != 0o1000:
+            ck.violation(where, f"linking three files yields base {base!r} and image {code!r}, expected base 512 and the concatenation {want!r}", construct="link result")
+        if len({id(x) for x in lbs}) != 1:
+            ck.violation(where, "linked files do not share one link-base record", construct="link shared base")
+    rule_closing_wait(ck)
+
+
+def rule_closing_wait(ck):
+    """every value in the symbol table is evaluated inside compile_and_link_files (so an error in an unused definition
+    is diagnosed inside the report scope, and the listing reads final values)"""
+    repo = ck.repo
+    where = "compiler::Compiler.compile_and_link_files"
+    I = eager_interp(repo)
+    I.summaries = {"reports::emit_report": I.summaries["reports::emit_report"]}
+    waited = []
+
+    def th():
+        del waited[:]
+        comp = I.instantiate(I.module_get("compiler", "Compiler"), [], {})
+        bt = I.builtin_types["int"]
+        D = I.module_get("deferred", "Deferred")
+        LP = I.module_get("deferred", "LinearPolynomial")
+        P = I.module_get("deferred", "Promise")
+
+        def mk(name):
+            return PyFn(lambda I_, a, k: waited.append(name) or 1, name)
+        d = I.instantiate(D, [bt, mk("deferred")], {})
+        inner = I.instantiate(D, [bt, mk("polynomial-term")], {})
+        lp = I.instantiate(LP, [bt, {inner: 2}, 1], {})
+        pr = I.instantiate(P, [bt, "p"], {})
+        I.call_method(pr, "settle", [I.instantiate(D, [bt, mk("promise-value")], {})])
+        syms = comp.fields["symbols"]
+        for nm, v in (("a", d), ("b", lp), ("c", pr), ("d", 5)):
+            I.call_method(syms, "__setitem__", [".internal1." + nm, (sym.var("tok", "obj"), v)])
+        I.call_method(comp, "compile_and_link_files", [[]])
+        return sorted(waited)
+    ps = I.explore(th)
+    ck.instance("closing-wait", {"symbol values evaluated before returning": repr(ps[0].value)}, fn=where)
+    if len(ps) != 1 or ps[0].kind != "return":
+        ck.violation(where, f"closing evaluation of the symbol table does not complete: {ps}", construct="closing wait")
+    elif ps[0].value != ["deferred", "polynomial-term", "promise-value"]:
+        missing = sorted({"deferred", "polynomial-term", "promise-value"} - set(ps[0].value))
+        ck.violation(where, f"symbol values of kind {missing} are not evaluated before compile_and_link_files returns: an error inside an unused definition of that kind is never diagnosed inside the report scope "
+                            "(the run succeeds and writes its outputs; a later listing evaluates it outside the scope)", construct="closing wait skips " + ",".join(missing))
+
+
 def run(ck):
+    ck.run_rule("C02.R7", "linked files: start addresses, concatenation, every symbol evaluated", 3, rule_R7)
     ck.run_rule("C02.R1", "announced size == produced length for every sized producer (G8)", 40, rule_R1)
     ck.run_rule("C02.R2", "bytes accumulator / address accumulator pairing", 5, rule_R2)
     ck.run_rule("C02.R3", "'.' and label values are the running address before the statement", 5, rule_R3)
